@@ -100,10 +100,12 @@ func checkC21(c *Ctx, r *Report) {
 			emptyOK := false
 			instrsOf(loc, func(in2 ssa.Instruction) {
 				if iff, isIf := in2.(*ssa.If); isIf && reaches(iff.Block(), cl.Block()) && reaches(cl.Block(), iff.Block()) {
-					if b, isB := iff.Cond.(*ssa.BinOp); isB && isConstZero(b.Y) && b.Op == token.EQL {
-						if lc, isL := b.X.(*ssa.Call); isL && calleeName(lc.Common()) == "builtin.len" {
-							emptyOK = true
-						}
+					// a test of the emptiness of the result so far, in any spelling
+					zf := lenZeroFact(func(x ssa.Value) bool {
+						return !mentionsField(x, tRing+".healthy") && !isCallTo(x, "(*"+pkgHRW+".RendezvousHash).GetOrderedNodes")
+					})
+					if zf(iff.Cond, true) != 0 {
+						emptyOK = true
 					}
 				}
 			})
@@ -120,6 +122,26 @@ func checkC21(c *Ctx, r *Report) {
 				return isL && calleeName(lc.Common()) == "builtin.len" && mentionsField(lc.Call.Args[0], tRing+".healthy") && isConstZero(b.Y)
 			}, true)) && mentionsField(unspill(ret.Results[0]), pkgHRW+".RendezvousHashNode.Label") {
 				okNone = true
+			}
+		}
+		if !okNone {
+			// single-return form: the returned value is a phi one of whose edges, taken
+			// on the empty-healthy-set side, is the one-element list of the first node
+			hz := lenZeroFact(func(x ssa.Value) bool { return mentionsField(x, tRing+".healthy") })
+			for _, ret := range returnsOf(loc) {
+				phi, isPhi := unspill(ret.Results[0]).(*ssa.Phi)
+				if !isPhi {
+					continue
+				}
+				for i, e := range phi.Edges {
+					if !mentionsField(e, pkgHRW+".RendezvousHashNode.Label") || mentionsCall(e, "builtin.append") {
+						continue
+					}
+					pred := phi.Block().Preds[i]
+					if len(pred.Instrs) > 0 && guardedBy(pred.Instrs[len(pred.Instrs)-1], hz) {
+						okNone = true
+					}
+				}
 			}
 		}
 		r.Check(okNone, r1, loc, "no healthy host ⇒ top owner", nil, "returns the first ordered node", "with no healthy host Locations does not return the top owner")
@@ -204,6 +226,46 @@ func checkC21(c *Ctx, r *Report) {
 				return 0
 			}) {
 				rebuiltWhenChanged = true
+			}
+		}
+		if !(okNodes && rebuiltWhenChanged) && addrsVal != nil {
+			// the same through a constructor helper: newHash(members) makes a fresh
+			// hash, adds a node for every element of its parameter and returns it;
+			// Refresh calls it with the stored membership on the changed side
+			for _, hc := range callsIn(rf) {
+				h := hc.Instr.Common().StaticCallee()
+				if h == nil || h.Pkg != rf.Pkg || len(h.Blocks) == 0 || len(callsInNamed(h, pkgHRW+".NewRendezvousHash")) != 1 {
+					continue
+				}
+				pidx := -1
+				for i, a := range hc.Instr.Common().Args {
+					if a == addrsVal || mentions(a, func(v ssa.Value) bool { return v == addrsVal }, 2) {
+						pidx = i
+					}
+				}
+				if pidx < 0 || pidx >= len(h.Params) {
+					continue
+				}
+				built := false
+				for _, l := range rangeLoops(h) {
+					if l.Ranged != ssa.Value(h.Params[pidx]) {
+						continue
+					}
+					for _, cs := range callsInNamed(h, "(*"+pkgHRW+".RendezvousHash).AddNode") {
+						if l.everyIteration(cs.Instr) && l.derivesFromElem(cs.Instr.Common().Args[1]) {
+							built = true
+						}
+					}
+				}
+				changedSide := guardedBy(hc.Instr, func(cond ssa.Value, val bool) int {
+					if isCallTo(cond, "utils/stringset.Equal") {
+						return tern(val, -1, 1)
+					}
+					return 0
+				})
+				if built && changedSide {
+					okNodes, rebuiltWhenChanged = true, true
+				}
 			}
 		}
 		r.Check(okNodes && rebuiltWhenChanged, r3, rf, "hash matches membership", nil, "rebuilt from the stored membership whenever it changed", "the hash is not rebuilt from exactly the membership that is stored with it whenever the membership changed")
